@@ -61,6 +61,8 @@ CONFIG = {
 }
 
 _hist = {}
+_seed = [0]
+_cur_key = [None]
 _hist_id = [0]
 _pos = [0]
 _modstate_mods = []
@@ -132,6 +134,17 @@ def judge(c):
             LOG.violation('c07.formula', PROP, c.case(),
                           show(c.tree_after) if c.tree_after else None,
                           show(c.tree), note='formula object was modified')
+    # cross-history / cross-process table over the catalogue
+    if _cur_key[0] is not None:
+        out0 = _outcome(c)
+        prev0 = _global.get(_cur_key[0])
+        if prev0 is None:
+            _global[_cur_key[0]] = out0
+        elif prev0 != out0:
+            LOG.violation('c07.history', PROP, c.case(), out0, prev0,
+                          note='same catalogue case %r gave a different '
+                               'outcome in an earlier history of this '
+                               'process' % (_cur_key[0],))
     # history
     t = c.denoted()
     key = (c.logic, c.nk.key(), tuple(map(repr, c.nk.states)),
@@ -185,28 +198,67 @@ def attach():
             mcwrap.judges.append(j)
 
 
-def make_pool(r):
+_catalogue = {}
+_global = {}        # catalogue case -> first outcome in this process
+
+
+def catalogue(seed):
+    """One fixed list of structures, formulas and constraint lists per run:
+    every history draws its pool from it, so the same case is executed in
+    many histories (and in many worker processes) after different calls."""
+    c = _catalogue.get(seed)
+    if c is not None:
+        return c
+    r = gen.rng(seed, PROP, 'catalogue')
     structs = []
-    for _ in range(12):
+    for k in range(36):
         nk = gen.random_structure(r, 5, atoms=('p', 'q'))
+        labels = [set(l) for l in nk.labels]
+        # user labels that collide with names the checkers invent
+        if k % 3 == 1:
+            for i in range(nk.n):
+                if r.random() < 0.5:
+                    labels[i].add('fair')
+                if r.random() < 0.2:
+                    labels[i].add('fair0')
+        if k % 4 == 2:
+            for nm in ('[E(G(p))]', '[A(F(q))]', '[A(not G(p))]'):
+                labels[r.randrange(nk.n)].add(nm)
+        nk = NK(range(nk.n), nk.succ, labels)
         names = None
-        k = r.random()
-        if k < 0.3:
+        x = k % 5
+        if x == 1:
             names = ['s%d' % i for i in range(nk.n)]
-        elif k < 0.45:
+        elif x == 3:
             names = [(i, 'x') for i in range(nk.n)]
-        structs.append((nk, names))
+        sts = names or list(range(nk.n))
+        Fs = [None]
+        for _ in range(2):
+            Fs.append([set(r.sample(sts, r.randint(1, len(sts))))
+                       for _ in range(r.randint(1, 2))])
+        structs.append((nk, names, Fs))
     forms = []
-    for _ in range(5):
-        forms.append(('CTL', gen.random_ctl(r, r.randint(1, 3),
-                                            atoms=('p', 'q'))))
-    for _ in range(4):
+    atoms = ('p', 'q')
+    for _ in range(14):
+        forms.append(('CTL', gen.random_ctl(r, r.randint(1, 3), atoms)))
+    forms += [('CTL', ('E', ('G', ('ap', 'p')))),
+              ('CTL', ('A', ('F', ('ap', 'q')))),
+              ('CTL', ('E', ('F', ('ap', 'fair')))),
+              ('CTL', ('and', ('ap', 'fair'), ('E', ('X', ('ap', 'p'))))),
+              ('CTL', ('E', ('R', ('ap', 'p'), ('ap', 'q'))))]
+    for _ in range(8):
         forms.append(('LTL', ('A', gen.random_ltl_path(
-            r, r.randint(1, 2), atoms=('p', 'q'), max_temporal=3))))
-    for _ in range(6):
+            r, r.randint(1, 2), atoms, max_temporal=3))))
+    for _ in range(12):
         forms.append(('CTLS', gen.random_ctls_state(
-            r, r.randint(2, 3), atoms=('p', 'q'), qdepth=2)))
-    return structs, forms
+            r, r.randint(2, 3), atoms, qdepth=2)))
+    forms += [('CTLS', ('E', ('F', ('ap', 'fair')))),
+              ('CTLS', ('A', ('G', ('E', ('R', ('ap', 'p'), ('ap', 'q')))))),
+              ('CTLS', ('E', ('and', ('G', ('F', ('ap', 'p'))),
+                              ('F', ('ap', '[E(G(p))]')))))]
+    c = (structs, forms)
+    _catalogue[seed] = c
+    return c
 
 
 def history(r, hid):
@@ -214,31 +266,38 @@ def history(r, hid):
     _hist.clear()
     _hist_id[0] = hid
     _before_mod[0] = None
-    structs, forms = make_pool(r)
+    allstructs, allforms = catalogue(_seed[0])
+    sidx = r.sample(range(len(allstructs)), 12)
+    fidx = r.sample(range(len(allforms)), 15)
+    forms = [allforms[i] for i in fidx]
     live = {}
     parsers = {}
     for pos in range(200):
         _pos[0] = pos
-        si = r.randrange(len(structs))
-        nk, names = structs[si]
+        si = r.choice(sidx)
+        nk, names, Fs = allstructs[si]
         if si not in live or r.random() < 0.08:
             if si in live:
                 LOG.sig['recreated_structure'] += 1
             live[si] = mcwork.kripke_of(nk, names)   # old one is dropped
         K = live[si]
-        logic, t = r.choice(forms)
+        fi = r.choice(fidx)
+        logic, t = allforms[fi]
         # CTL formulas are also valid CTL* formulas
         call_logic = logic
         if logic == 'CTL' and r.random() < 0.3:
             call_logic = 'CTLS'
         L = lang(call_logic)
-        F = None
-        if r.random() < 0.3:
-            sts = list(K.states())
-            F = [set(r.sample(sts, r.randint(1, len(sts))))
-                 for _ in range(r.randint(1, 2))]
-        style = 'text' if r.random() < 0.35 else 'obj'
+        Fi = 0 if r.random() < 0.65 else r.choice([1, 2])
+        F = Fs[Fi]
+        if F is not None:
+            F = [set(P) for P in F]
+        quoted = any(not a.replace('_', 'a').isalnum()
+                     for a in __import__('vmon.neutral', fromlist=['x'])
+                     .atoms_of(t))
+        style = 'text' if (r.random() < 0.35 and not quoted) else 'obj'
         f = mcwork.formula_arg(call_logic, t, style)
+        _cur_key[0] = (call_logic, si, fi, Fi)
         try:
             if style == 'text':
                 if call_logic not in parsers:
@@ -250,18 +309,54 @@ def history(r, hid):
                 res.add('__vmon__')          # caller owns the result
         except Exception:
             pass
+    _cur_key[0] = None
     if hid % 8 == 0:
         LOG.sample({'history': hid, 'calls': 200,
-                    'pool_structures': [s[0].to_json() for s in structs[:2]],
+                    'pool_structures': [allstructs[i][0].to_json()
+                                        for i in sidx[:2]],
                     'pool_formulas': [(l, show(t)) for l, t in forms[:6]]})
 
 
 def run(ctx):
     attach()
-    nh = 64 if ctx.quick else 2000
+    _seed[0] = ctx.seed
+    nh = 96 if ctx.quick else 2400
     for h in range(nh):
         if ctx.mine(h):
             history(gen.rng(ctx.seed, PROP, h), h)
+    ctx.extra['outcomes'] = {repr(k): v for k, v in _global.items()}
+
+
+def finalize(reports, ctx):
+    """Cross-process history monitor: the same catalogue case, executed by
+    different workers after different call histories, has one outcome."""
+    seen = {}
+    viol = []
+    n = 0
+    for rep in reports:
+        for k, v in rep['extra'].get('outcomes', {}).items():
+            n += 1
+            if k not in seen:
+                seen[k] = (v, rep['shard'])
+            elif seen[k][0] != v:
+                viol.append({'monitor': 'c07.history', 'property': PROP,
+                             'case': {'catalogue_case': k,
+                                      'meaning': '(logic, structure index, '
+                                                 'formula index, F index) '
+                                                 'in c07.catalogue(seed)'},
+                             'observed': {'shard %s' % rep['shard']: v},
+                             'expected': {'shard %s' % seen[k][1]:
+                                          seen[k][0]},
+                             'shard': rep['shard'],
+                             'replay_shards': [seen[k][1], rep['shard']],
+                             'note': 'the same call returned different '
+                                     'outcomes in two processes that had '
+                                     'made different earlier calls'})
+    multi = len([1 for k in seen])
+    return {'violations': viol[:50],
+            'evals': {'c07.cross_process': n},
+            'coverage': {'catalogue_cases_seen': len(seen),
+                         'case_executions_compared_across_processes': n}}
 
 
 def replay(ctx, rep):
